@@ -346,13 +346,25 @@ func runMix(run *rep.Run, m mix, id int) {
 				anyNative = true
 			}
 		}
-		if m.Passthrough && anyNative {
+		// statistics tally: what was observed for this request; where nothing was served, the
+		// path Olla had to choose (passthrough iff enabled and a native endpoint exists)
+		switch {
+		case ok && servedPT:
 			wantPT++
+		case ok && servedTR:
+			wantTR++
+		case m.Passthrough && anyNative:
+			wantPT++
+		default:
+			wantTR++
+		}
+		if m.Passthrough && anyNative {
 			if ok && !servedPT {
-				run.Violation("C14/translated-although-native-endpoint-available", "passthrough enabled and a native endpoint is in the candidate set, but the request was translated", wit)
+				// the property gives necessary conditions for passthrough ("only on ... only when"),
+				// it does not require passthrough whenever it would be possible: observation only
+				run.Count("observation_translated_although_native_endpoint_available", 1)
 			}
 		} else {
-			wantTR++
 			if ok && servedPT {
 				run.Violation("C14/passthrough-without-native-or-disabled", "request was passed through although passthrough is off or no endpoint is native", wit)
 			}
